@@ -42,6 +42,16 @@ NEEDS = {
     "C18-2": "reset() of a slice whose index tuple has an integer array after a slice/Ellipsis (.base is not None although it is a copy)",
     "C19-2": "relative_dx=True with a complex perturbed input and a non-holomorphic map (scale factor x0 instead of |x0| rotates the perturbation direction)",
     "C20-2": "ScalarToFile logging a non-C-contiguous array view (values in memory order, header names in C order) -- re-based onto the repaired tree",
+    "C02-3": "Network.sensitivity() returns early when all of the network's *cached* sig_out are unseeded: an inner network extended after nesting with only the late output seeded, or an adjoint source module without outputs",
+    "C03-3": "AggActiveSet with amount-based criteria only (no value band) keeps its all-true start mask between calls: second response on data that ranks differently",
+    "C04-3": "FilterConv skips the backpropagation when np.allclose(seed, 0) (absolute 1e-8): seeds of magnitude <= 1e-8 give exactly zero -- linearity at small scale",
+    "C06-3": "adjoint matrix A^H cached on first use and never invalidated by update(): non-symmetric matrix, T/H solve, update, then two or more T/H solves",
+    "C07-3": "LinSolve/SystemOfEquations constructed with symmetric=True only (no hermitian flag) on a dense complex-symmetric matrix: treated as Hermitian",
+    "C10-3": "alfa/beta computed from the asymptote offsets of the previous iteration: a variable whose offset shrinks while move >= asydecr*offset_old gets alfa <= low / beta >= upp",
+    "C11-3": "generalised problem with auto-detected hermitian flag, A symmetric, B positive definite but non-symmetric (flag taken from A only)",
+    "C16-3": "KSFunction as soft minimum (rho < 0) on wide-range data with |rho|*(max-min) > ~709: log-sum-exp shift by the maximum overflows",
+    "C18-3": "Signal constructed with an initial sensitivity (keep_alloc True) and reset(keep_alloc=False): the explicit False is ignored",
+    "C20-3": "2D domain, node-sized block-vector with 2 components per node and at least 2 blocks: only block 0 is padded to three components",
     "C20-1": "scale != 1 and at least two writes with the same DomainDefinition (element_size view scaled in place): Spacing wrong from the second file on",
 }
 
